@@ -35,7 +35,10 @@ TPush == IsEvent("push") /\ ServerPush(E.c) /\ Head(srvq[E.c]).kind = E.kind
 TSrvClose == IsEvent("srvclose") /\ (ServerClose(E.c) \/ ServerCloseLate(E.c))
 TPull == /\ IsEvent("pull") /\ Owner(E.c) # {}
          /\ IF E.eof = 1 THEN wire[E.c] # <<>> /\ Head(wire[E.c]) = EOF /\ Same
-            ELSE Pull(TheOwner(E.c)) /\ Head(wire[E.c]).id = E.id
+            ELSE /\ Pull(TheOwner(E.c)) /\ Head(wire[E.c]).id = E.id
+                 \* an open body stream owns its connection AND its reader: whoever reads from connection c
+                 \* does so on behalf of the call that owns c (by = the call the reading goroutine is serving)
+                 /\ E.by = 0 \/ E.by = TheOwner(E.c)
 TRel == IsEvent("rel") /\ (IF Owner(E.c) # {} THEN RelConn(TheOwner(E.c)) ELSE PoolIdle(E.c))
 TClose == /\ IsEvent("close")
           /\ IF Owner(E.c) # {} THEN ClsConn(TheOwner(E.c))
